@@ -33,6 +33,31 @@ fn entry_view(dict: &sudachi::dic::dictionary::JapaneseDictionary, dic: usize, r
     ])
 }
 
+/// A version-3 user dictionary that declares no POS of its own, in the version-1 layout: other magic number, no
+/// (empty, 6-byte) POS block; the word-info offsets are absolute and move with the removed block.
+fn to_v1(v3: &[u8]) -> Option<Vec<u8>> {
+    const HEADER: usize = 272;
+    if v3.len() < HEADER + 18 || v3[..8] != 0xca9811756ff64fb0u64.to_le_bytes() || v3[HEADER..HEADER + 6] != [0u8; 6] {
+        return None;
+    }
+    let rd = |b: &[u8], o: usize| -> Option<usize> { b.get(o..o + 4).map(|x| u32::from_le_bytes([x[0], x[1], x[2], x[3]]) as usize) };
+    let mut out = Vec::with_capacity(v3.len());
+    out.extend_from_slice(&0xa50f31188bd211e7u64.to_le_bytes());
+    out.extend_from_slice(&v3[8..HEADER]);
+    out.extend_from_slice(&v3[HEADER + 6..]);
+    let mut o = HEADER;
+    o += 4 + rd(&out, o)? * 4;
+    o += 4 + rd(&out, o)?;
+    let n = rd(&out, o)?;
+    o += 4 + n * 6;
+    for i in 0..n {
+        let p = o + i * 4;
+        let v = (rd(&out, p)?.checked_sub(6)?) as u32;
+        out[p..p + 4].copy_from_slice(&v.to_le_bytes());
+    }
+    Some(out)
+}
+
 pub fn run(ctx: &Ctx, rep: &mut Report) {
     let n_worlds = ctx.n(192, 8000);
     let plugin_pos = [
@@ -48,7 +73,8 @@ pub fn run(ctx: &Ctx, rep: &mut Report) {
         }
         let mut rng = Rng::derive(ctx.seed, 0xC12, wi);
         rep.progress_idx(wi, "C12 stack");
-        let dopts = DictOpts { max_entries: 16, cost_extremes: false, ..DictOpts::default() };
+        let v1_world = matches!(wi % 16, 1 | 3 | 5 | 13);
+        let dopts = DictOpts { max_entries: 16, cost_extremes: false, system_pos_user_layers: v1_world, ..DictOpts::default() };
         let matrix = dictgen::gen_matrix(&mut rng, &dopts);
         let nid = matrix.nid() as i64;
         let mut sys = dictgen::gen_system(&mut rng, &dopts, &matrix);
@@ -146,6 +172,40 @@ pub fn run(ctx: &Ctx, rep: &mut Report) {
                 Err(pn) => {
                     rep.violation("load_panic", &pn.site, &format!("user dictionaries with the version-2 magic number: {}", pn.msg), "", json!({"world_index": wi, "layers": n_layers}));
                     continue;
+                }
+            }
+        } else if n_layers >= 1 && v1_world {
+            // user dictionaries that declare no part of speech of their own, re-encoded in the first user-dictionary
+            // format (header, no POS block, lexicon): they are layers like any other - same numbers, same limit of 14
+            let mut w = world;
+            let mut n_v1 = 0;
+            let v1: Vec<Vec<u8>> = w.user_bytes.iter().map(|b| match to_v1(b) {
+                Some(x) => {
+                    n_v1 += 1;
+                    x
+                }
+                None => b.clone(),
+            }).collect();
+            if n_v1 == 0 {
+                w
+            } else {
+                let cfg = env::config(&w.cfg_json, &w.res);
+                match guard(|| env::load(&cfg, &w.sys_bytes, &v1, Place::Owned)) {
+                    Ok(Ok(d)) => {
+                        w.dict = d;
+                        w.user_bytes = v1;
+                        rep.count("stacks_with_version_1_user_dictionaries", 1);
+                        rep.count("version_1_user_dictionaries", n_v1);
+                        w
+                    }
+                    Ok(Err(e)) => {
+                        rep.violation("load_error", "from_cfg_storage", &format!("the stack loads with version-3 user dictionaries but not when those without own POS are written in the version-1 layout: {:?}", e), "", json!({"world_index": wi, "layers": n_layers}));
+                        continue;
+                    }
+                    Err(pn) => {
+                        rep.violation("load_panic", &pn.site, &format!("user dictionaries in the version-1 layout: {}", pn.msg), "", json!({"world_index": wi, "layers": n_layers}));
+                        continue;
+                    }
                 }
             }
         } else {
